@@ -276,4 +276,20 @@ var props = []propCfg{
 		LevelNote: "Trusted: the reference evaluator, the Go toolchain; fc's translation serves as a second reference (it is itself checked by C01).",
 		DesignRef: "DESIGN.md section 4, C17",
 	},
+	{
+		ID: "C11", Pkg: "props/c11", Needs: []string{"fc", "gocache"},
+		Tests: []testCfg{
+			{Name: "TestSingleCharacters", ShardsQ: 16, ShardsT: 16},
+			{Name: "TestRandomLiterals", Rapid: true, Quick: 160, Thorough: 6400, ShardsQ: 16, ShardsT: 16},
+		},
+		Rule:      "a literal = (form in {\"...\", `...`, $\"...\", $`...`}, intended text, holes). The renderer writes the text in the form's documented source syntax (\\n \\t \\\\ \\\" escapes in quoted forms, everything raw in backtick forms, \\{ \\} for literal braces in $\"...\"); texts a form cannot denote (a backtick in raw forms, braces in $`...`) are outside its domain. Exhaustive part: every character of printable ASCII, newline, tab and 6 multi-byte runes, alone, on both sides of each of \\ \" { } %, and around a hole, in each of the 4 forms (about 3,900 literals, 60 per program; thorough adds all two-sided neighbour pairs). Sampled part (rapid): texts of 0..12 pieces drawn from the alphabet and from hostile pieces (%s %d \\n {} \\\\ %% ...) with 0..4 holes bound to variables of type int (incl. negative), string (containing % and braces), bool, tuple, slice, record, union. Every literal is printed with frt.Printf1 \"%q\\n\" by a transpiled, compiled and executed program; oracle: strconv.Unquote of the printed line equals the intended text with each hole replaced by the value's display form. A failing batch is re-decided literal by literal. One evaluation = one literal. Non-trivial = the literal's value contains a character special to one of the three layers (\\ \" { } % $ `, newline, non-ASCII); distinct = hash of (form, source text).",
+		Technique: "round-trip property (text -> Folang literal -> Go literal -> runtime value -> text): exhaustive single-character sweep + property-based testing (rapid), compile-and-run",
+		Assumptions: []string{
+			"holes contain a single variable name (all documented examples); display forms are those of the C01 display model",
+			"characters outside printable ASCII / newline / tab / valid UTF-8 are outside the property's domain",
+		},
+		LevelText: "Exhaustive sweep of every single character (and its special neighbours) in all four literal forms on every run, plus generated literals with holes, decided end to end through fc, the Go compiler and the runtime. Exhaustive within the bound, exploration beyond.",
+		LevelNote: "Trusted: strconv.Unquote / %q as an unambiguous observation channel; the 30-line renderer of the documented literal syntax.",
+		DesignRef: "DESIGN.md section 4, C11",
+	},
 }
